@@ -139,10 +139,15 @@ def _check(inp):
     width = inp.get("width", 80)
     indentation = inp.get("indentation", "    ")
     # domain: one lexically valid line, no leading blank (the emitters strip the indentation first)
-    if "\n" in line or "\t" in line or line != line.strip():
+    if "\n" in line or line != line.strip():
         return None
     try:
         in_toks = token_texts(line, lang)
+        if "\t" in line:
+            # a tab is in the domain only inside a quoted string (legal source; the emitters write no other tab)
+            spans = [(s_, e_) for k_, t_, s_, e_ in lex(line, lang) if k_ == "str"]
+            if not all(any(s_ <= i < e_ for s_, e_ in spans) for i, c in enumerate(line) if c == "\t"):
+                return None
     except Unterminated:
         return None
     wrap = wrap_python if lang == "python" else wrap_fortran
@@ -221,12 +226,13 @@ def replay(inp):
 # {{{ fingerprints
 
 def _adjacent_blank_strings(line, lang):
-    """quoted strings with an embedded blank whose opening quote directly follows a non-blank"""
+    """quoted strings with embedded white space (a blank or a tab: shlex's word separators) whose opening quote directly
+    follows a non-blank"""
     try:
         toks = lex(line, lang)
     except Unterminated:
         return []
-    return [(s, e) for k, t, s, e in toks if k == "str" and " " in t and s > 0 and line[s - 1] != " "]
+    return [(s, e) for k, t, s, e in toks if k == "str" and (" " in t or "\t" in t) and s > 0 and line[s - 1] != " "]
 
 
 def _has_escape_or_comment(line, lang):
@@ -591,6 +597,32 @@ def bounded(payload):
                     run({"lang": lang, "line": line, "level": level, "width": width,
                          "indentation": "    " if lang == "python" else " "})
 
+    # ---- indentation strings other than the emitters' own (wrap_line takes the string as an argument) ----
+    n_ind = 0
+    for lang in ("python", "fortran"):
+        long_lines = ["x = f(aaaa, bbbb, cccc, dddd, eeee, ffff, gggg, hhhh, iiii, jjjj, kkkk, llll, mmmm, nnnn)",
+                      "y = a1 + b2 * c3 - d4 + e5 * f6 - g7 + h8 * i9 - j10 + k11 * l12 - m13 + n14 * o15 - p16 + q17"]
+        for line in sorted(set(rl[lang])) + long_lines:
+            line = line.strip()
+            for indentation in ("", "        ", "            "):
+                for level, width in ((1, 40), (3, 80), (2, 60)):
+                    run({"lang": lang, "line": line, "level": level, "width": width, "indentation": indentation})
+                    n_ind += 1
+    parts["indentation_family_inputs"] = n_ind
+
+    # ---- a literal tab inside a quoted string (legal source; the string is one token) ----
+    n_tab = 0
+    for lang, q in (("python", "'"), ("python", '"'), ("fortran", "'")):
+        for line in ("x = %sa\tb%s + cccc + dddd + eeee + ffff + gggg + hhhh" % (q, q),
+                     "x = f(%sa\tb%s, cccc, dddd, eeee, ffff, gggg, hhhh)" % (q, q),
+                     "call g(aaaa, bbbb, %sc\td e%s, ffff, gggg, hhhh, iiii)" % (q, q) if lang == "fortran"
+                     else "g(aaaa, bbbb, %sc\td e%s, ffff, gggg, hhhh, iiii)" % (q, q)):
+            for width in (16, 24, 40):
+                for level in (0, 1):
+                    run({"lang": lang, "line": line, "level": level, "width": width, "indentation": "    "})
+                    n_tab += 1
+    parts["tab_in_string_inputs"] = n_tab
+
     # ---- seeded random statements from small grammars ----
     for i in range(n_random):
         lang = "python" if i % 2 == 0 else "fortran"
@@ -631,7 +663,7 @@ def bounded(payload):
                     "width in 1..80, level 0..6, indentation of 1, 2 or 4 blanks.  Non-trivial = wrapped to >= 2 lines "
                     "or holds a quoted string with a blank; distinct = distinct (lang, line, level, width, indentation)"
                     % (max_pieces, EXH_WIDTHS, EXH_LEVELS),
-            "bound": "exhaustive part: <= %d pieces; random part: expression depth <= 3, one line, no tabs"
+            "bound": "exhaustive part: <= %d pieces; random part: expression depth <= 3, one line; tabs only inside quoted strings (one family)"
                      % max_pieces,
             "samples": samples[:4], "failures": failures[:max_fail], "known_hits": known_hits,
             "parts": parts, "exhaustive": False}
